@@ -2,6 +2,6 @@
 (* Model: the abstract scheduler over the configurations in $C14_INPUT.    *)
 EXTENDS Concertina, TLC
 
-ASSUME \A k \in DOMAIN ConfigSeq : WellFormedCfg(ConfigSeq[k])
-ASSUME PrintT(<<"CONFIGS", Len(ConfigSeq)>>)
+ASSUME \A k \in DOMAIN Lines : WellFormedCfg(ConfigOf(k))
+ASSUME PrintT(<<"CONFIGS", Len(Lines)>>)
 =============================================================================
